@@ -1260,7 +1260,7 @@ def gen_case(rng, profile='c10', max_ops=None):
     partitions = ['p1'] if rng.random() < 0.35 else []
     nsrv = rng.choice([2, 3, 3, 4])
     servers = [gen_server(rng, i + 1, racks, partitions) for i in range(nsrv)]
-    groups = [(1, rng.randint(1, 3))] if rng.random() < 0.65 else []
+    groups = [(1, rng.randint(1, 3))] if (rng.random() < 0.65 or profile == 'c05') else []
     gids = [g for g, _n in groups]
     case = {'racks': racks, 'partitions': partitions, 'servers': servers, 'groups': groups,
             'allocations': gen_allocations(rng, partitions) if rng.random() < 0.5 else None,
@@ -1282,6 +1282,11 @@ def gen_case(rng, profile='c10', max_ops=None):
         weights.update({'Restart': 7, 'PresenceBounce': 4, 'IdentityGroup': 5, 'ServerRecord': 6})
     if profile == 'c09':
         weights.update({'ServerDeleteApi': 3, 'IdentityGroup': 5, 'Renew': 3})
+    if profile == 'c05':
+        # identity groups resized, deleted and re-created - also twice in a row with no cycle in between - while
+        # instances hold identities; restarts force recorded identities back
+        weights.update({'IdentityGroup': 9, 'IdentityGroupDeleted': 3, 'GroupBounce': 6, 'Schedule': 12, 'Unschedule': 4,
+                        'Restart': 4, 'ShrinkThenRestart': 2, 'ServerDeleteApi': 0, 'DeleteRace': 0})
     if profile == 'c08':
         # server failures against the retention clock, across master restarts and server reloads; nothing that the
         # statement of C08 exempts (no blacklist, identity-group or allocation changes, no renewals, no deletions)
@@ -1359,6 +1364,23 @@ def gen_case(rng, profile='c10', max_ops=None):
             ops.append(['IdentityGroup', g, rng.randint(0, 4)])
         elif k == 'IdentityGroupDeleted' and gids:
             ops.append(['IdentityGroupDeleted', rng.choice(gids)])
+        elif k == 'GroupBounce' and gids:
+            # two identity-group events handled back to back (the master cycles only every other second): shrunk and
+            # grown again, or deleted and created again, while instances hold the upper identities; then a newcomer
+            g = rng.choice(gids)
+            ops.append(['MasterCycle'])
+            if rng.random() < 0.6:
+                ops.append(['IdentityGroup', g, rng.choice([0, 1])])
+            else:
+                ops.append(['IdentityGroupDeleted', g])
+            ops.append(['IdentityGroup', g, rng.randint(2, 4)])
+            if rng.random() < 0.8:
+                a = gen_app(rng, [g])
+                a['group'] = g
+                ops.append(['Schedule', next_id, a])
+                live.append(next_id)
+                next_id += 1
+            ops.append(['MasterCycle'])
         elif k == 'ServerState' and existing:
             st = rng.choice(['frozen', 'frozen', 'up', 'down'])
             apps = rng.sample(live, min(len(live), rng.randint(0, 2))) if st == 'frozen' else []
